@@ -87,21 +87,33 @@ Section WithMatch.
   (** ** Events of the building blocks *)
 
   Definition is_report_ev (e : event) : bool :=
-    match e with EvReport _ _ _ => true | EvSendFail _ true => true | _ => false end.
+    match e with EvReport _ _ _ => true | EvReportFrags _ _ _ => true | EvSendFail _ true => true | _ => false end.
+
+  Notation send_report_path := (send_report_path matches).
 
   Lemma finish_shape a sub cur acts rsn :
     (snd (finish a sub cur acts rsn) = [] /\ fst (finish a sub cur acts rsn) = a
        /\ create_report (a_node a) (a_now a, a_tsn a) cur acts rsn = None)
     \/ (exists r, create_report (a_node a) (a_now a, a_tsn a) cur acts rsn = Some r
          /\ fst (finish a sub cur acts rsn) = tick a
-         /\ ((exists k, snd (finish a sub cur acts rsn) = [EvReport sub r k])
-             \/ snd (finish a sub cur acts rsn) = [EvSendFail sub true])).
+         /\ ((exists k, snd (finish a sub cur acts rsn) = [EvReport sub r k]
+                        /\ send_report_path a (r_dst r) = SentWhole k)
+             \/ (exists k, snd (finish a sub cur acts rsn) = [EvReportFrags sub r k])
+             \/ (snd (finish a sub cur acts rsn) = [EvSendFail sub true]
+                 /\ forall k, send_report_path a (r_dst r) <> SentWhole k))).
   Proof.
     unfold BpAgent.finish.
     destruct (create_report (a_node a) (a_now a, a_tsn a) cur acts rsn) as [r|]; [right|left; auto].
     exists r. split; [reflexivity|].
-    destruct (BpAgent.send_path matches (tick a) (r_dst r) 0 false false true); cbn; split; eauto.
+    assert (E : send_report_path (tick a) (r_dst r) = send_report_path a (r_dst r)) by reflexivity.
+    rewrite E.
+    destruct (send_report_path a (r_dst r)) as [k|k [|]|]; cbn; split; eauto.
+    - right; right. split; [reflexivity|]. discriminate.
+    - right; right. split; [reflexivity|]. discriminate.
   Qed.
+
+  Ltac finish_cases a sub cur acts rsn H :=
+    destruct (finish_shape a sub cur acts rsn) as [[H _]|[?r [?Hc [_ [[?k [H _]]|[[?k H]|[H _]]]]]]].
 
   Lemma finish_seen a sub cur acts rsn : a_seen (fst (finish a sub cur acts rsn)) = a_seen a.
   Proof.
@@ -113,31 +125,44 @@ Section WithMatch.
     destruct (finish_shape a sub cur acts rsn) as [[_ [H _]]|[r [_ [H _]]]]; rewrite H; reflexivity.
   Qed.
 
-  Lemma finish_no_deliver a sub cur acts rsn : has_deliver (snd (finish a sub cur acts rsn)) = false.
+  Lemma finish_tx a sub cur acts rsn : a_tx (fst (finish a sub cur acts rsn)) = a_tx a.
   Proof.
-    destruct (finish_shape a sub cur acts rsn) as [[H _]|[r [_ [_ [[k H]|H]]]]]; rewrite H; reflexivity.
+    destruct (finish_shape a sub cur acts rsn) as [[_ [H _]]|[r [_ [H _]]]]; rewrite H; reflexivity.
   Qed.
+
+  Lemma finish_no_deliver a sub cur acts rsn : has_deliver (snd (finish a sub cur acts rsn)) = false.
+  Proof. finish_cases a sub cur acts rsn H; rewrite H; reflexivity. Qed.
 
   Lemma finish_no_tx a sub cur acts rsn : has_tx (snd (finish a sub cur acts rsn)) = false.
-  Proof.
-    destruct (finish_shape a sub cur acts rsn) as [[H _]|[r [_ [_ [[k H]|H]]]]]; rewrite H; reflexivity.
-  Qed.
+  Proof. finish_cases a sub cur acts rsn H; rewrite H; reflexivity. Qed.
 
   Lemma finish_report a sub cur acts rsn sub' r k :
-    In (EvReport sub' r k) (snd (finish a sub cur acts rsn)) ->
+    In (EvReport sub' r k) (snd (finish a sub cur acts rsn)) \/ In (EvReportFrags sub' r k) (snd (finish a sub cur acts rsn)) ->
     sub' = sub /\ create_report (a_node a) (a_now a, a_tsn a) cur acts rsn = Some r.
   Proof.
-    destruct (finish_shape a sub cur acts rsn) as [[H _]|[r0 [Hc [_ [[k0 H]|H]]]]]; rewrite H; cbn.
+    finish_cases a sub cur acts rsn H; rewrite H; cbn.
+    - intros [[]|[]].
+    - intros [[E|[]]|[E|[]]]; inversion E; subst; auto.
+    - intros [[E|[]]|[E|[]]]; inversion E; subst; auto.
+    - intros [[E|[]]|[E|[]]]; discriminate.
+  Qed.
+
+  Lemma finish_report_route a sub cur acts rsn sub' r k :
+    In (EvReport sub' r k) (snd (finish a sub cur acts rsn)) -> send_report_path a (r_dst r) = SentWhole k.
+  Proof.
+    destruct (finish_shape a sub cur acts rsn) as [[H _]|[r0 [Hc [_ [[k0 [H Hs]]|[[k0 H]|[H _]]]]]]]; rewrite H; cbn.
     - intros [].
-    - intros [E|[]]. inversion E; subst. auto.
+    - intros [E|[]]. inversion E; subst. exact Hs.
+    - intros [E|[]]. discriminate.
     - intros [E|[]]. discriminate.
   Qed.
 
   Lemma finish_subject a sub cur acts rsn e :
     In e (snd (finish a sub cur acts rsn)) -> ev_subject e = sub.
   Proof.
-    destruct (finish_shape a sub cur acts rsn) as [[H _]|[r0 [Hc [_ [[k0 H]|H]]]]]; rewrite H; cbn.
+    finish_cases a sub cur acts rsn H; rewrite H; cbn.
     - intros [].
+    - intros [E|[]]; subst; reflexivity.
     - intros [E|[]]; subst; reflexivity.
     - intros [E|[]]; subst; reflexivity.
   Qed.
@@ -150,9 +175,10 @@ Section WithMatch.
   (** ** The forwarding plan *)
 
   Definition tx_ok (a : agent) (b : bundle) : bool :=
-    match send_path a (b_dst b) (b_size b) (has_flag (b_flags b) FLAG_NO_FRAGMENT) (is_frag b) (b_cached b) with
+    match send_path a (b_dst b) (b_size b) (has_flag (b_flags b) FLAG_NO_FRAGMENT) (is_frag b) (b_fragfeas b) with
+    | SentWhole _ => true
+    | SentFrags _ cl => cl
     | SendRaise => false
-    | _ => true
     end.
 
   (** Projections of the plan. *)
@@ -174,83 +200,45 @@ Section WithMatch.
     /\ (b_time b <> 0 -> plan_cur p = b)
     /\ has_deliver (plan_pre p) = false
     /\ (forall e, In e (plan_pre p) -> ev_subject e = b)
-    /\ (forall s r k, ~ In (EvReport s r k) (plan_pre p))
-    /\ ( (* success *)
-         (prep_fails b = false /\ plan_acts p = add AFwd acts /\ plan_reason p = rsn
-            /\ has_tx (plan_pre p) = true
-            /\ exists k, send_path a (b_dst b) (b_size b) (has_flag (b_flags b) FLAG_NO_FRAGMENT) (is_frag b) (b_cached b) = SentWhole k
-                         /\ plan_pre p = [EvTx b (plan_cur p) k])
-         \/ (* failure *)
-         (plan_acts p = add ADel acts /\ plan_reason p = Some fwd_fail_reason
-            /\ (has_tx (plan_pre p) = true -> b_cached b = false)
-            /\ has_tx (plan_pre p) = negb (prep_fails b) && tx_ok a b) ).
+    /\ (forall e, In e (plan_pre p) -> is_report_ev e = false)
+    /\ has_tx (plan_pre p) = negb (prep_fails b) && tx_ok a b
+    /\ ( (* send_bundle returned: 'forward' recorded *)
+         (prep_fails b = false /\ plan_acts p = add AFwd acts /\ plan_reason p = rsn)
+         \/ (* an exception: 'delete' / NO_ROUTE recorded, nothing reached a CL *)
+         (plan_acts p = add ADel acts /\ plan_reason p = Some fwd_fail_reason /\ has_tx (plan_pre p) = false) ).
   Proof.
     unfold BpAgent.fwd_plan, prep_fails, plan_agent, plan_cur, plan_acts, plan_reason, plan_pre, tx_ok.
     destruct (b_prep b =? 1) eqn:P1; cbn [fst snd orb negb andb].
-    { repeat split; auto; try (intros; contradiction).
-      right. repeat split; auto. discriminate. }
+    { repeat split; auto; try (intros; contradiction). }
     destruct (b_time b =? 0) eqn:T0; cbn [negb andb].
     - (* creation time zero: no age block, timestamp rewritten *)
       set (b' := set_ts b (a_now a) (a_tsn a)).
-      assert (Hsp : send_path (tick a) (b_dst b') (b_size b') (has_flag (b_flags b') FLAG_NO_FRAGMENT) (is_frag b') (b_cached b')
-                    = send_path a (b_dst b) (b_size b) (has_flag (b_flags b) FLAG_NO_FRAGMENT) (is_frag b) (b_cached b))
+      assert (Hsp : send_path (tick a) (b_dst b') (b_size b') (has_flag (b_flags b') FLAG_NO_FRAGMENT) (is_frag b') (b_fragfeas b')
+                    = send_path a (b_dst b) (b_size b) (has_flag (b_flags b) FLAG_NO_FRAGMENT) (is_frag b) (b_fragfeas b))
         by (apply send_path_tx; reflexivity).
       rewrite Hsp.
-      destruct (send_path a (b_dst b) (b_size b) (has_flag (b_flags b) FLAG_NO_FRAGMENT) (is_frag b) (b_cached b)) as [k|k|] eqn:S;
-        cbn [fst snd].
-      + repeat split; auto.
-        * intros H. apply N.eqb_eq in T0. contradiction.
-        * intros e [E|[]]; subst; reflexivity.
-        * intros s r k0 [E|[]]; discriminate.
-        * left. repeat split; auto. exists k. split; reflexivity.
-      + repeat split; auto.
-        * intros H. apply N.eqb_eq in T0. contradiction.
-        * intros e [E|[E|[]]]; subst; reflexivity.
-        * intros s r k0 [E|[E|[]]]; discriminate.
-        * right. repeat split; auto.
-          intros _. unfold BpAgent.send_path in S.
-          destruct (find_idx (fun r => matches (t_pat r) (b_dst b)) (a_tx a) 0) as [[k1 r1]|]; [|discriminate].
-          destruct (b_cached b); [|reflexivity].
-          rewrite andb_false_r in S. destruct (t_cl r1); discriminate.
-      + repeat split; auto.
-        * intros H. apply N.eqb_eq in T0. contradiction.
-        * intros e [E|[]]; subst; reflexivity.
-        * intros s r k0 [E|[]]; discriminate.
-        * right. repeat split; auto. discriminate.
+      destruct (send_path a (b_dst b) (b_size b) (has_flag (b_flags b) FLAG_NO_FRAGMENT) (is_frag b) (b_fragfeas b)) as [k|k [|]|] eqn:S;
+        cbn [fst snd]; (repeat split; auto;
+          [ intros H; apply N.eqb_eq in T0; contradiction
+          | intros e [E|[]]; subst; reflexivity
+          | intros e [E|[]]; subst; reflexivity ]).
     - (* creation time known: bundle age block added *)
       destruct (b_prep b =? 2) eqn:P2; cbn [fst snd].
-      { repeat split; auto; try (intros; contradiction).
-        right. repeat split; auto. discriminate. }
-      assert (Hsp : send_path (tick a) (b_dst b) (b_size b) (has_flag (b_flags b) FLAG_NO_FRAGMENT) (is_frag b) (b_cached b)
-                    = send_path a (b_dst b) (b_size b) (has_flag (b_flags b) FLAG_NO_FRAGMENT) (is_frag b) (b_cached b))
+      { repeat split; auto; try (intros; contradiction). }
+      assert (Hsp : send_path (tick a) (b_dst b) (b_size b) (has_flag (b_flags b) FLAG_NO_FRAGMENT) (is_frag b) (b_fragfeas b)
+                    = send_path a (b_dst b) (b_size b) (has_flag (b_flags b) FLAG_NO_FRAGMENT) (is_frag b) (b_fragfeas b))
         by (apply send_path_tx; reflexivity).
       rewrite Hsp.
-      destruct (send_path a (b_dst b) (b_size b) (has_flag (b_flags b) FLAG_NO_FRAGMENT) (is_frag b) (b_cached b)) as [k|k|] eqn:S;
-        cbn [fst snd].
-      + repeat split; auto.
-        * intros e [E|[]]; subst; reflexivity.
-        * intros s r k0 [E|[]]; discriminate.
-        * left. repeat split; auto. exists k. split; reflexivity.
-      + repeat split; auto.
-        * intros e [E|[E|[]]]; subst; reflexivity.
-        * intros s r k0 [E|[E|[]]]; discriminate.
-        * right. repeat split; auto.
-          intros _. unfold BpAgent.send_path in S.
-          destruct (find_idx (fun r => matches (t_pat r) (b_dst b)) (a_tx a) 0) as [[k1 r1]|]; [|discriminate].
-          destruct (b_cached b); [|reflexivity].
-          rewrite andb_false_r in S. destruct (t_cl r1); discriminate.
-      + repeat split; auto.
-        * intros e [E|[]]; subst; reflexivity.
-        * intros s r k0 [E|[]]; discriminate.
-        * right. repeat split; auto. discriminate.
+      destruct (send_path a (b_dst b) (b_size b) (has_flag (b_flags b) FLAG_NO_FRAGMENT) (is_frag b) (b_fragfeas b)) as [k|k [|]|] eqn:S;
+        cbn [fst snd]; (repeat split; auto;
+          [ intros e [E|[]]; subst; reflexivity
+          | intros e [E|[]]; subst; reflexivity ]).
   Qed.
 
   Lemma fwd_plan_has_tx a b acts rsn :
     has_tx (plan_pre (fwd_plan a b acts rsn)) = negb (prep_fails b) && tx_ok a b.
   Proof.
-    destruct (fwd_plan_spec a b acts rsn) as (_ & _ & _ & _ & _ & _ & _ & _ & _ & _ & _ & [H|H]).
-    - destruct H as (Hp & _ & _ & Ht & k & Hs & _). rewrite Ht, Hp. unfold tx_ok. rewrite Hs. reflexivity.
-    - destruct H as (_ & _ & _ & Ht). exact Ht.
+    destruct (fwd_plan_spec a b acts rsn) as (_ & _ & _ & _ & _ & _ & _ & _ & _ & _ & _ & H & _). exact H.
   Qed.
 
   Lemma do_fwd_eq a b acts rsn :
@@ -363,49 +351,60 @@ Section WithMatch.
   Qed.
 
   (** Where a report in the events of [final] comes from. *)
-  Lemma final_report a b acts rsn c s r k :
-    In (EvReport s r k) (snd (final a b acts rsn c)) ->
+  Definition report_in (r : report) (evs : list event) : Prop :=
+    exists s k, In (EvReport s r k) evs \/ In (EvReportFrags s r k) evs.
+
+  Lemma report_in_app r x y : report_in r (x ++ y) <-> report_in r x \/ report_in r y.
+  Proof.
+    unfold report_in. split.
+    - intros (s & k & [H|H]); apply in_app_or in H; destruct H as [H|H]; [left|right|left|right]; exists s, k; auto.
+    - intros [(s & k & [H|H])|(s & k & [H|H])]; exists s, k; [left|right|left|right]; apply in_or_app; auto.
+  Qed.
+
+  Lemma finish_report_in a sub cur acts rsn r :
+    report_in r (snd (finish a sub cur acts rsn)) -> create_report (a_node a) (a_now a, a_tsn a) cur acts rsn = Some r.
+  Proof. intros (s & k & H). apply finish_report in H. apply H. Qed.
+
+  Lemma final_report a b acts rsn c r :
+    report_in r (snd (final a b acts rsn c)) ->
     exists ts cur acts' rsn',
       create_report (a_node a) ts cur acts' rsn' = Some r
       /\ b_src cur = b_src b /\ b_rpt cur = b_rpt b /\ b_flags cur = b_flags b /\ (b_time b <> 0 -> cur = b)
       /\ ( (cur = b /\ acts' = acts /\ rsn' = rsn /\ (mem ADel acts = true \/ mem ADlv acts = true))
            \/ (mem ADel acts = false /\ mem AFwd acts = true /\ acts' = add AFwd acts /\ rsn' = rsn
-                 /\ prep_fails b = false /\ tx_ok a b = true /\ (b_cached b = true -> exists j, In (EvTx b cur j) (snd (final a b acts rsn c))))
+                 /\ prep_fails b = false)
            \/ (mem ADel acts = false /\ mem AFwd acts = true /\ acts' = add ADel acts /\ rsn' = Some fwd_fail_reason
-                 /\ (negb (prep_fails b) && tx_ok a b = true -> b_cached b = false)) ).
+                 /\ has_tx (snd (final a b acts rsn c)) = false) ).
   Proof.
+    intros H. pose proof (final_has_tx a b acts rsn c) as Htxall.
+    remember (has_tx (snd (final a b acts rsn c))) as htx eqn:Eh. clear Eh. revert H.
     rewrite final_eq. destruct (mem ADel acts) eqn:Hdel; cbn [snd]; intros H.
-    - apply in_app_or in H. destruct H as [H|H].
-      { destruct c; [destruct H as [H|[]]; discriminate | destruct H]. }
-      apply finish_report in H. destruct H as [_ H].
+    - apply report_in_app in H. destruct H as [H|H].
+      { destruct H as (s & k & [H|H]); destruct c; cbn in H; try contradiction; destruct H as [H|[]]; discriminate. }
+      apply finish_report_in in H.
       exists (a_now a, a_tsn a), b, acts, rsn. repeat (split; [auto; fail|]). left. auto.
-    - apply in_app_or in H. destruct H as [H|H].
-      { destruct c; [destruct H as [H|[]]; discriminate | destruct H]. }
-      apply in_app_or in H. destruct H as [H|H].
-      + destruct (mem ADlv acts) eqn:Hdlv; [|destruct H].
-        apply finish_report in H. destruct H as [_ H].
+    - apply report_in_app in H. destruct H as [H|H].
+      { destruct H as (s & k & [H|H]); destruct c; cbn in H; try contradiction; destruct H as [H|[]]; discriminate. }
+      apply report_in_app in H. destruct H as [H|H].
+      + destruct (mem ADlv acts) eqn:Hdlv; [|destruct H as (s & k & [[]|[]])].
+        apply finish_report_in in H.
         exists (a_now a, a_tsn a), b, acts, rsn. repeat (split; [auto; fail|]). left. auto.
-      + destruct (mem AFwd acts) eqn:Hfwd; [|destruct H].
+      + destruct (mem AFwd acts) eqn:Hfwd; [|destruct H as (s & k & [[]|[]])].
         set (a1 := if mem ADlv acts then fst (finish a b b acts rsn) else a) in *.
         assert (Hn : a_node a1 = a_node a) by (subst a1; destruct (mem ADlv acts); [apply finish_node|reflexivity]).
-        assert (Ht : a_tx a1 = a_tx a).
-        { subst a1. destruct (mem ADlv acts); [|reflexivity].
-          destruct (finish_shape a b b acts rsn) as [[_ [E _]]|[r0 [_ [E _]]]]; rewrite E; reflexivity. }
+        assert (Ht : a_tx a1 = a_tx a) by (subst a1; destruct (mem ADlv acts); [apply finish_tx|reflexivity]).
         pose proof (do_fwd_eq a1 b acts rsn) as Hd.
         pose proof (fwd_plan_spec a1 b acts rsn) as Hs. cbv zeta in Hs.
-        destruct Hs as (_ & Hnode & _ & _ & Hsrc & Hrpt & Hfl & Htime & _ & _ & Hnr & Hcase).
-        rewrite Hd in H. cbn [snd] in H. apply in_app_or in H. destruct H as [H|H].
-        { exfalso. eapply Hnr. exact H. }
-        apply finish_report in H. destruct H as [_ H]. rewrite Hnode, Hn in H.
+        destruct Hs as (_ & Hnode & _ & _ & Hsrc & Hrpt & Hfl & Htime & _ & _ & Hnr & Hptx & Hcase).
+        rewrite Hd in H. cbn [snd] in H. apply report_in_app in H. destruct H as [H|H].
+        { exfalso. destruct H as (s & k & [H|H]); apply Hnr in H; discriminate. }
+        apply finish_report_in in H. rewrite Hnode, Hn in H.
         eexists _, (plan_cur (fwd_plan a1 b acts rsn)), (plan_acts (fwd_plan a1 b acts rsn)), (plan_reason (fwd_plan a1 b acts rsn)).
         split; [exact H|]. repeat (split; [assumption|]).
-        destruct Hcase as [(Hp & Ha & Hr & Htx & j & Hsp & Hpre)|(Ha & Hr & Hc & Htx)].
+        destruct Hcase as [(Hp & Ha & Hr)|(Ha & Hr & Hx)].
         * right; left. repeat split; auto.
-          -- rewrite <- (tx_ok_tx a a1 b Ht). unfold tx_ok. rewrite Hsp. reflexivity.
-          -- intros Hcached. exists j. apply in_or_app. right. apply in_or_app. right. rewrite Hd. cbn [snd].
-             apply in_or_app. left. rewrite Hpre. left. reflexivity.
         * right; right. repeat split; auto.
-          intros Hx. apply Hc. rewrite Htx. rewrite (tx_ok_tx a a1 b Ht). exact Hx.
+          rewrite Htxall. cbn [negb andb]. rewrite <- (tx_ok_tx a a1 b Ht), <- Hptx. exact Hx.
   Qed.
 
   (** ** One call of [recv_bundle] *)
@@ -538,15 +537,13 @@ Section WithMatch.
     assert (S1 : forall a' b', In i (a_seen a') -> ident_eqb (ident_of b') i = true -> snd (fst (recv_core a' b')) = []).
     { intros a' b' Hi He. apply ident_eqb_eq in He. subst i.
       apply recv_core_silent. apply accepted_not_seen. exact Hi. }
-    destruct (snd (recv_core a b)) as [rb|]; cbn [snd acts_on filter fst].
-    - destruct (ident_eqb (ident_of b) i) eqn:E1.
-      + rewrite (S1 a b Hin E1). cbn.
-        destruct (ident_eqb (ident_of rb) i) eqn:E2; [|reflexivity].
-        rewrite (S1 _ rb (seen_mono a b i Hin) E2). reflexivity.
-      + cbn. destruct (ident_eqb (ident_of rb) i) eqn:E2; [|reflexivity].
-        rewrite (S1 _ rb (seen_mono a b i Hin) E2). reflexivity.
-    - destruct (ident_eqb (ident_of b) i) eqn:E1; [|reflexivity].
-      rewrite (S1 a b Hin E1). reflexivity.
+    assert (S2 : forall a' b', In i (a_seen a') ->
+               ident_eqb (ident_of b') i && negb (match snd (fst (recv_core a' b')) with [] => true | _ => false end) = false).
+    { intros a' b' Hi. destruct (ident_eqb (ident_of b') i) eqn:E; [|reflexivity].
+      rewrite (S1 a' b' Hi E). reflexivity. }
+    destruct (snd (recv_core a b)) as [rb|]; unfold acts_on; cbn [filter fst snd].
+    - rewrite (S2 a b Hin). rewrite (S2 _ rb (seen_mono a b i Hin)). reflexivity.
+    - rewrite (S2 a b Hin). reflexivity.
   Qed.
 
   Lemma run_seen_silent hist : forall a i, In i (a_seen a) -> acts_on i (snd (run a hist)) = [].
@@ -594,5 +591,243 @@ Section WithMatch.
     - assert (Hs : In i (a_seen a1)) by (apply Hin; discriminate).
       pose proof (run_seen_silent t a1 i Hs) as Hz. rewrite E2 in Hz. cbn [snd] in Hz. rewrite Hz.
       cbn [length] in *. lia.
+  Qed.
+
+  (** ** Gates *)
+
+  Theorem own_source_ignored a b : b_src b = a_node a -> recv a b = (a, [(b, [])]).
+  Proof.
+    intros H. assert (Hacc : accepted a b = false).
+    { unfold accepted. rewrite H, N.eqb_refl. cbn. rewrite andb_false_r. reflexivity. }
+    rewrite recv_eq, (recv_core_rejected a b Hacc). reflexivity.
+  Qed.
+
+  Theorem duplicate_ignored a b : In (ident_of b) (a_seen a) -> recv a b = (a, [(b, [])]).
+  Proof.
+    intros H. rewrite recv_eq, (recv_core_rejected a b (accepted_not_seen a b H)). reflexivity.
+  Qed.
+
+  Theorem bad_crc_ignored a b : b_crc_ok b = false -> recv a b = (a, [(b, [])]).
+  Proof.
+    intros H. assert (Hacc : accepted a b = false) by (unfold accepted; rewrite H; reflexivity).
+    rewrite recv_eq, (recv_core_rejected a b Hacc). reflexivity.
+  Qed.
+
+  (** ** Routing *)
+
+  Definition rx_action (a : agent) (b : bundle) : option action :=
+    option_map snd (find (fun r => matches (fst r) (b_dst b)) (a_rx a)).
+
+  Lemma route_actions_local a b : local_dest a b = true -> route_actions a b = [ARecv; ADlv].
+  Proof. intros H. unfold BpAgent.route_actions. rewrite H. reflexivity. Qed.
+
+  Lemma route_actions_routed a b :
+    local_dest a b = false ->
+    route_actions a b = match rx_action a b with Some x => add x [ARecv] | None => [ARecv] end.
+  Proof.
+    intros H. unfold BpAgent.route_actions, rx_action, BpAgent.rx_lookup. rewrite H.
+    destruct (find (fun r => matches (fst r) (b_dst b)) (a_rx a)); reflexivity.
+  Qed.
+
+  Lemma route_actions_deliver a b : mem ADlv (route_actions a b) = true -> route_actions a b = [ARecv; ADlv].
+  Proof.
+    destruct (local_dest a b) eqn:L.
+    - intros _. apply route_actions_local. exact L.
+    - rewrite (route_actions_routed a b L). destruct (rx_action a b) as [[]|]; cbn; intros H; try discriminate; reflexivity.
+  Qed.
+
+  (** Deliveries and transmissions of one processing, as a function of the routing decision. *)
+  Lemma recv_core_outcome a b :
+    accepted a b = true ->
+    let evs := snd (fst (recv_core a b)) in
+    let acts0 := route_actions a b in
+    if mem ADlv acts0 && is_frag b then has_deliver evs = false /\ has_tx evs = false
+    else has_deliver evs = mem ADlv (fst (sec_step b acts0))
+         /\ has_tx evs = negb (mem ADel (fst (sec_step b acts0))) && mem AFwd (fst (sec_step b acts0))
+                          && negb (prep_fails b) && tx_ok a b.
+  Proof.
+    intros Hacc. cbv zeta. rewrite (recv_core_accepted a b Hacc).
+    destruct (mem ADlv (route_actions a b) && is_frag b) eqn:C.
+    - apply andb_true_iff in C. destruct C as [C _]. rewrite (route_actions_deliver a b C).
+      destruct (snd (reasm_step (a_reasm a) b)); cbn [fst snd]; try (split; reflexivity).
+      rewrite final_has_deliver, final_has_tx. cbn. split; reflexivity.
+    - cbn [fst snd]. rewrite final_has_deliver, final_has_tx. split; [reflexivity|].
+      rewrite (tx_ok_tx a (seen_add a b) b) by reflexivity. reflexivity.
+  Qed.
+
+  Theorem first_match a b :
+    accepted a b = true -> local_dest a b = false ->
+    let act := rx_action a b in
+    let evs := snd (fst (recv_core a b)) in
+    (has_deliver evs = true -> act = Some ADlv)
+    /\ (has_tx evs = true -> act = Some AFwd)
+    /\ (act = Some ADlv -> b_frag b = None -> (has_deliver evs = true <-> b_sec b = None) /\ has_tx evs = false)
+    /\ (act = Some AFwd -> has_deliver evs = false /\ has_tx evs = negb (prep_fails b) && tx_ok a b)
+    /\ (act <> Some ADlv -> act <> Some AFwd -> has_deliver evs = false /\ has_tx evs = false).
+  Proof.
+    intros Hacc Hloc. cbv zeta.
+    pose proof (recv_core_outcome a b Hacc) as H. cbv zeta in H.
+    rewrite (route_actions_routed a b Hloc) in H.
+    unfold BpAgent.sec_step in H.
+    destruct (rx_action a b) as [[]|] eqn:Hact; cbn in H.
+    - (* 'receive' as a route action: nothing *)
+      destruct (b_sec b); destruct H as [H1 H2]; rewrite H1, H2;
+        repeat split; intros; try discriminate; try congruence.
+    - (* forward *)
+      destruct (b_sec b); destruct H as [H1 H2]; rewrite H1, H2;
+        repeat split; intros; try discriminate; try congruence.
+    - (* deliver *)
+      destruct (is_frag b) eqn:F.
+      + destruct H as [H1 H2]. rewrite H1, H2.
+        assert (Hnf : b_frag b <> None) by (unfold is_frag in F; destruct (b_frag b); [discriminate|discriminate]).
+        repeat split; intros; try discriminate; try congruence; contradiction.
+      + destruct (b_sec b) eqn:S; cbn in H; destruct H as [H1 H2]; rewrite H1, H2;
+          repeat split; intros; try discriminate; try congruence.
+    - (* delete *)
+      destruct (b_sec b); destruct H as [H1 H2]; rewrite H1, H2;
+        repeat split; intros; try discriminate; try congruence.
+    - (* any other action string *)
+      destruct (b_sec b); destruct H as [H1 H2]; rewrite H1, H2;
+        repeat split; intros; try discriminate; try congruence.
+    - (* no route *)
+      destruct (b_sec b); destruct H as [H1 H2]; rewrite H1, H2;
+        repeat split; intros; try discriminate; try congruence.
+  Qed.
+
+  Theorem local_delivered a b :
+    accepted a b = true -> local_dest a b = true -> b_frag b = None ->
+    let evs := snd (fst (recv_core a b)) in
+    (has_deliver evs = true <-> b_sec b = None) /\ has_tx evs = false.
+  Proof.
+    intros Hacc Hloc Hf. cbv zeta.
+    pose proof (recv_core_outcome a b Hacc) as H. cbv zeta in H.
+    rewrite (route_actions_local a b Hloc) in H. unfold is_frag in H. rewrite Hf in H.
+    unfold BpAgent.sec_step in H. cbn in H.
+    destruct (b_sec b); cbn in H; destruct H as [H1 H2]; rewrite H1, H2; split; try reflexivity; split; intros; congruence.
+  Qed.
+
+  Theorem no_route_no_action a b :
+    accepted a b = true -> local_dest a b = false -> rx_action a b = None ->
+    snd (fst (recv_core a b)) = [] /\ snd (recv_core a b) = None.
+  Proof.
+    intros Hacc Hloc Hact. rewrite (recv_core_accepted a b Hacc).
+    rewrite (route_actions_routed a b Hloc), Hact. cbn [mem existsb action_eqb orb andb].
+    unfold BpAgent.sec_step. destruct (b_sec b); cbn [mem existsb action_eqb orb fst snd];
+      rewrite final_eq; cbn; auto.
+  Qed.
+
+  (** ** Status reports: [create_report] *)
+
+  Lemma mem_filter x p l : mem x (filter p l) = mem x l && p x.
+  Proof.
+    unfold mem. induction l as [|y l IH]; cbn; [reflexivity|].
+    destruct (p y) eqn:Py; cbn; rewrite IH.
+    - destruct (action_eqb x y) eqn:E; cbn; [|reflexivity].
+      apply action_eqb_eq in E. subst. rewrite Py. reflexivity.
+    - destruct (action_eqb x y) eqn:E; cbn; [|reflexivity].
+      apply action_eqb_eq in E. subst. rewrite Py. rewrite andb_false_r. reflexivity.
+  Qed.
+
+  Lemma filter_nonempty_iff (p : action -> bool) l : filter p l <> [] <-> exists s, In s l /\ p s = true.
+  Proof.
+    split.
+    - intros H. destruct (filter p l) as [|x t] eqn:E; [contradiction|].
+      assert (Hx : In x (filter p l)) by (rewrite E; left; reflexivity).
+      apply filter_In in Hx. exists x. exact Hx.
+    - intros [s [Hin Hp]] E. assert (Hx : In s (filter p l)) by (apply filter_In; auto).
+      rewrite E in Hx. destruct Hx.
+  Qed.
+
+  Theorem create_report_iff node ts b acts rsn :
+    create_report node ts b acts rsn <> None
+    <-> b_rpt b <> EID_NONE /\ exists s, In s acts /\ requested b s = true.
+  Proof.
+    unfold create_report. destruct (b_rpt b =? EID_NONE) eqn:E.
+    - apply N.eqb_eq in E. split; [intros H; contradiction | intros [H _]; contradiction].
+    - apply N.eqb_neq in E. rewrite <- filter_nonempty_iff.
+      destruct (filter (fun s => requested b s) acts); split.
+      + intros H; contradiction.
+      + intros [_ H]; contradiction.
+      + intros _. split; [exact E | discriminate].
+      + intros _. discriminate.
+  Qed.
+
+  (** The status array position of an action identifies the action (computed from the generated table). *)
+  Lemma status_index_inj s k :
+    status_index s = Some k ->
+    forall s', (match status_index s' with Some j => Nat.eqb j k | None => false end) = action_eqb s s'.
+  Proof. destruct s; cbv; intros H; inversion H; subst; intros s'; destruct s'; reflexivity. Qed.
+
+  Lemma status_index_bound s k : status_index s = Some k -> (k < status_array_len)%nat.
+  Proof. destruct s; cbv; intros H; inversion H; subst; lia. Qed.
+
+  Lemma existsb_ext_action (f g : action -> bool) l : (forall x, f x = g x) -> existsb f l = existsb g l.
+  Proof. intros H. induction l as [|y l IH]; cbn; [reflexivity|]. rewrite H, IH. reflexivity. Qed.
+
+  Lemma create_report_asserted node ts b acts rsn r s :
+    create_report node ts b acts rsn = Some r -> asserted r s = mem s acts && requested b s.
+  Proof.
+    unfold create_report. destruct (b_rpt b =? EID_NONE); [discriminate|].
+    destruct (filter (fun s0 => requested b s0) acts) as [|h t] eqn:F; [discriminate|].
+    intros H. inversion H; subst; clear H. unfold asserted. cbn [r_status].
+    destruct (status_index s) as [k|] eqn:K.
+    - pose proof (status_index_bound s k K) as Hb.
+      rewrite (nth_indep _ false (existsb (fun _ => false) (h :: t))) by (rewrite map_length, seq_length; exact Hb).
+      rewrite (map_nth (fun k0 => existsb (fun s0 => match status_index s0 with Some j => Nat.eqb j k0 | None => false end) (h :: t))).
+      rewrite seq_nth by exact Hb. cbn [plus].
+      rewrite (existsb_ext_action _ (action_eqb s) (h :: t) (status_index_inj s k K)).
+      rewrite <- F. apply mem_filter.
+    - destruct s; cbv in K; try discriminate. unfold requested. cbn. rewrite andb_false_r. reflexivity.
+  Qed.
+
+  Lemma create_report_fields node ts b acts rsn r :
+    create_report node ts b acts rsn = Some r ->
+    b_rpt b <> EID_NONE /\ r_dst r = b_rpt b /\ r_src r = node /\ r_rpt r = EID_NONE
+    /\ r_flags r = report_bundle_flags /\ r_crc r = report_crc_type /\ r_time r = fst ts /\ r_seq r = snd ts
+    /\ r_with_time r = has_flag (b_flags b) status_time_flag
+    /\ r_subj_src r = b_src b /\ r_subj_time r = b_time b /\ r_subj_seq r = b_seq b
+    /\ length (r_status r) = status_array_len
+    /\ r_reason r = match rsn with Some rc => if rc =? 0 then default_reason else rc | None => default_reason end.
+  Proof.
+    unfold create_report. destruct (b_rpt b =? EID_NONE) eqn:E; [discriminate|]. apply N.eqb_neq in E.
+    destruct (filter (fun s0 => requested b s0) acts); [discriminate|].
+    intros H. inversion H; subst; clear H. cbn. rewrite map_length, seq_length. repeat split; auto.
+  Qed.
+
+  (** A report never requests reports about itself. *)
+  Definition flags_request (flags : N) (s : action) : bool :=
+    match req_flag s with Some f => has_flag flags f | None => false end.
+
+  Lemma requested_flags b s : requested b s = flags_request (b_flags b) s.
+  Proof. reflexivity. Qed.
+
+  Lemma report_flags_request_nothing s : flags_request report_bundle_flags s = false.
+  Proof. destruct s; vm_compute; reflexivity. Qed.
+
+  Lemma report_flags_no_time : has_flag report_bundle_flags status_time_flag = false.
+  Proof. vm_compute. reflexivity. Qed.
+
+  Lemma report_flags_admin : has_flag report_bundle_flags FLAG_PAYLOAD_ADMIN = true.
+  Proof. vm_compute. reflexivity. Qed.
+
+  Theorem no_cascade node ts b acts rsn r :
+    create_report node ts b acts rsn = Some r ->
+    (forall s, flags_request (r_flags r) s = false)
+    /\ has_flag (r_flags r) status_time_flag = false
+    /\ has_flag (r_flags r) FLAG_PAYLOAD_ADMIN = true
+    /\ r_rpt r = EID_NONE
+    /\ (forall node' ts' b' acts' rsn', b_flags b' = r_flags r -> create_report node' ts' b' acts' rsn' = None).
+  Proof.
+    intros H. destruct (create_report_fields _ _ _ _ _ _ H) as (_ & _ & _ & Hrpt & Hfl & _).
+    rewrite Hfl. repeat split.
+    - apply report_flags_request_nothing.
+    - apply report_flags_no_time.
+    - apply report_flags_admin.
+    - exact Hrpt.
+    - intros node' ts' b' acts' rsn' Hb.
+      destruct (create_report node' ts' b' acts' rsn') eqn:E; [|reflexivity].
+      exfalso. assert (Hne : create_report node' ts' b' acts' rsn' <> None) by (rewrite E; discriminate).
+      apply create_report_iff in Hne. destruct Hne as [_ [s [_ Hs]]].
+      rewrite requested_flags, Hb, report_flags_request_nothing in Hs. discriminate.
   Qed.
 End WithMatch.
